@@ -16,6 +16,10 @@ pub struct Stats {
     pub tuples: BTreeSet<String>,
     pub samples: Vec<Value>,
     pub max_peak_ratio_x100: u64,
+    /// canonical event log of the run in progress, folded (order-sensitive)
+    pub run_acc: u64,
+    /// sum over runs of their folded event logs (independent of how runs are split over workers)
+    pub log_digest: u64,
 }
 
 impl Stats {
@@ -24,6 +28,10 @@ impl Stats {
     }
     pub fn add(&mut self, key: &str, n: u64) {
         *self.counters.entry(key.to_string()).or_insert(0) += n;
+    }
+    /// one event of the canonical log
+    pub fn note(&mut self, x: u64) {
+        self.run_acc = model::rng::mix(self.run_acc, x);
     }
     pub fn sample(&mut self, v: Value) {
         if self.samples.len() < 5 {
@@ -41,6 +49,7 @@ impl Stats {
             "tuples": self.tuples,
             "samples": self.samples,
             "max_peak_ratio_x100": self.max_peak_ratio_x100,
+            "log_digest": self.log_digest.to_string(),
         })
     }
 }
